@@ -90,6 +90,9 @@ KINDS = {
     'like_many': ("select a1 where like(a2, 'v_') and like(a1, '1%')", {}),
     'except_header': ('select * except a.name', {'header': True}),
     'join_header': ('select a.id, b.jval join B on a.name == b.key', {'join': True, 'header': True}),
+    'header_dict': ('select a["name"], a["id"]', {'header': True}),
+    'header_dict_update': ('update set a["name"] = "N"', {'header': True}),
+    'header_dict_except': ('select * except a["name"]', {'header': True}),
     'join_two_keys': ('select a1, b2 left join B on a2 == b1 and a1 == b3', {'join': True, 'join_b3_from_a1': True}),
     'err_join_table_missing': ('select a1, b2 join B on a2 == b1', {'join_missing': True}),
 }
@@ -130,6 +133,10 @@ def gen_op(rng, kind=None, api=None, max_rows=6, pool=40):
             op['header'] = [op['header'][i] for i in perm]
             if 'join_header' in op and rng.random() < 0.5:
                 op['join_header'] = [op['join_header'][i] for i in perm]
+        if rng.random() < 0.25:
+            # a table that lacks one of the names the query text may use: alone the query fails, which state left by an earlier
+            # run of the same text over a complete header could hide
+            op['header'] = [{'name': 'title', 'id': 'ident'}.get(h, h) if rng.random() < 0.6 else h for h in op['header']]
     if opt.get('init'):
         op['init'] = opt['init']
     if op['api'] == 'csviter' and (opt.get('ragged') or kind in ('star', 'except', 'err_unknown_join') or not rows):
@@ -391,6 +398,42 @@ def child_history(sc):
     return {'outcomes': outs, 'states': states}
 
 
+def child_enumerate(sc):
+    """Every interleaving of the seam steps of two tiny queries, depth-first over the explicit pick sequences, all inside one
+    forked interpreter (so later schedules also run after the earlier ones: both clauses of the property at once)."""
+    t = core.load_tree()
+    n = len(sc['ops'])
+    stack = [[]]
+    explored = 0
+    cap = sc.get('max_schedules', 3000)
+    bad = None
+    while stack and explored < cap:
+        prefix = stack.pop()
+        log = EventLog(cap=100000)
+        baton = Baton(n, prefix, log, max_yields=5000)
+        outs = [None] * n
+
+        def mk(i):
+            def fn():
+                outs[i] = run_op(t, sc['ops'][i], baton, i)
+            return fn
+        baton.run([mk(i) for i in range(n)])
+        explored += 1
+        taken = [k for (_cnt, k) in baton.choice_log]
+        for i in range(len(baton.choice_log) - 1, len(prefix) - 1, -1):
+            cnt, k = baton.choice_log[i]
+            for alt in range(k + 1, cnt):
+                stack.append(taken[:i] + [alt])
+        if bad is None:
+            for i in range(n):
+                if core.canon(outs[i]) != core.canon(sc['refs'][i]):
+                    bad = {'thread': i, 'picks': prefix, 'outcome': outs[i], 'schedule': ''.join(str(e[1]) for e in log.events)}
+                    break
+            if bad is not None:
+                break
+    return {'explored': explored, 'complete': not stack and bad is None, 'bad': bad, 'state': module_state(t)}
+
+
 def child_interleaved(sc):
     t = core.load_tree()
     log = EventLog(cap=100000)
@@ -474,7 +517,7 @@ def generate(rng, tier, idx):
         if rng.random() < 0.35:
             # the same query text again over another table / column order / front-end: what a cache keyed by
             # (part of) the query text would confuse
-            kind = rng.choice(KIND_NAMES if rng.random() < 0.5 else ['header_attr', 'except_header', 'join_header', 'agg_float', 'agg_plain', 'like', 'join', 'init_code'])
+            kind = rng.choice(KIND_NAMES if rng.random() < 0.5 else ['header_attr', 'except_header', 'join_header', 'header_dict', 'header_dict_update', 'header_dict_except', 'agg_float', 'agg_plain', 'like', 'join', 'init_code'])
             for _ in range(rng.choice([2, 2, 3])):
                 ops.insert(rng.randrange(len(ops) + 1), gen_op(rng, kind, pool=pool))
         if rng.random() < 0.12:
@@ -494,6 +537,13 @@ def generate(rng, tier, idx):
                           ['err_runtime', 'agg_group', 'unnest', 'err_agg_misuse'], ['update', 'update_nu', 'distinct', 'top', 'limit_distinct']])
         kinds = rng.sample(fam, min(n, len(fam)))
     ops = [gen_op(rng, k, api=rng.choice(['iter', 'iter', 'iter', 'csviter']), max_rows=4, pool=(40 if tier == 'quick' else 400)) for k in kinds]
+    if len(ops) == 2 and rng.random() < (0.004 if tier == 'quick' else 0.03):
+        # exhaustive: every interleaving of the seam steps of two queries over one-record tables
+        for op in ops:
+            op['rows'] = op['rows'][:1]
+            if op.get('join_rows'):
+                op['join_rows'] = op['join_rows'][:1]
+        return {'part': 'B', 'ops': ops, 'picks': [], 'enumerate': True, 'max_schedules': 1500 if tier == 'quick' else 6000}
     sc = {'part': 'B', 'ops': ops, 'picks': gen_picks(rng, len(ops), rng.choice([20, 40, 60, 90]))}
     if rng.random() < ((0.3 if same_family else 0.08) if tier == 'quick' else 0.35):
         sc['line_every'] = rng.choice([1, 2, 3, 5, 7])
@@ -528,6 +578,26 @@ def execute(sc):
                 res.update(verdict='violation', oracle='module_state', detail={'op_index': i, 'kind': sc['ops'][i]['kind'], 'debug_flags': obs['states'][i]})
                 break
         res['digest'] = core.digest([obs, refs])
+        return res
+    if sc.get('enumerate'):
+        esc = dict(sc)
+        esc['refs'] = refs
+        obs = fork_call(child_enumerate, esc, timeout_s=300)
+        bump(counters, 'part.B_enumerated')
+        bump(counters, 'sched.enumerated_schedules', obs['explored'])
+        if obs['complete']:
+            bump(counters, 'probe.pair_enumerated_completely')
+        res['steps'] = obs['explored']
+        res['evals'] = obs['explored']
+        res['nontrivial'] = 1 if obs['explored'] > 1 else 0
+        res['key'] = core.key64(sc['ops'])
+        if obs['bad'] is not None:
+            b = obs['bad']
+            case = {'part': 'B', 'ops': sc['ops'], 'picks': b['picks']}
+            res.update(verdict='violation', oracle='interleaving', case=case,
+                       detail={'thread': b['thread'], 'kind': sc['ops'][b['thread']]['kind'], 'others': [o['kind'] for j, o in enumerate(sc['ops']) if j != b['thread']],
+                               'interleaved': b['outcome'], 'alone': refs[b['thread']], 'schedule': b['schedule'][:200], 'found_by': 'enumeration'})
+        res['digest'] = core.digest([obs['explored'], obs['complete'], obs['bad'], refs])
         return res
     obs = fork_call(child_interleaved, sc)
     res['steps'] = obs['yields']
